@@ -20,11 +20,12 @@ C06-t C09-t C12-t C17-t
 C02-u C08-u C14-u C15-u C17-u C18-u C19-u
 C01-v C02-v C03-v C11-v C14-v C16-v C19-v
 C01-w C07-w C08-w C10-w C11-w C14-w C15-w C16-w C17-w
-C02-x C03-x C04-x C08-x C11-x C15-x""".split())
+C02-x C03-x C04-x C08-x C11-x C15-x
+C08-y C14-y C16-y C18-y""".split())
 reg = json.load(open("/verif/seeded/regression.json")) if os.path.exists("/verif/seeded/regression.json") else {}
 head = """# Seeded changes
 
-Each directory holds one change to aldas/go-modbus-client that breaks a listed property while compiling and passing the repository's own suite: `patch.diff`, the author's demonstration (`demo_test.go`, fails with the change, passes without), `notes.md` (author's description) and `meta.json` (property, what it needs to manifest, how to run the demonstration). Suffix `-a` .. `-x`: twenty-four rounds written by independent sub-agents that saw only the property text and a scratch worktree (from round b on additionally one-line descriptions of the earlier changes for the same property, to produce a different kind of change; later rounds were asked for multi-step / interleaving / boundary / cooperating-site changes, round l for changes that random generation is unlikely to reach, round m for feature additions that break a property only where two features meet, round n for changes whose effect varies from execution to execution, round o for changes that show only on objects that have been used hundreds to tens of thousands of times, round p for results that stay well-formed and plausible but are stale, shifted or somebody else's, round q for hidden state shared between two live instances used alternately, round r for non-default but legal configuration values, round s for sizes at the implementation's internal buffer limits, round t for compensating pairs that keep the library consistent with itself, round u for variants of earlier changes at another site, constant or function, round v for classic Go language pitfalls, round w for secondary observables - the main result stays right, round x free choice of the least-covered clause). None of these patches is ever committed to /repo; `tools/seeded.py <dir> --checks <ids>` re-validates a change in a scratch clone (demo passes on the original, suite passes with the change, demo fails with the change) and runs the named checks against it from a private copy of /verif; `tools/regress_seeded.py` does that for every change and writes `regression.json`, from which the result columns below are taken. "caught (after strengthening)": the check as it stood when the change arrived missed it; DESIGN.md 9.4 says what was added.
+Each directory holds one change to aldas/go-modbus-client that breaks a listed property while compiling and passing the repository's own suite: `patch.diff`, the author's demonstration (`demo_test.go`, fails with the change, passes without), `notes.md` (author's description) and `meta.json` (property, what it needs to manifest, how to run the demonstration). Suffix `-a` .. `-y`: twenty-four rounds and a partial one (`-y`: six properties) written by independent sub-agents that saw only the property text and a scratch worktree (from round b on additionally one-line descriptions of the earlier changes for the same property, to produce a different kind of change; later rounds were asked for multi-step / interleaving / boundary / cooperating-site changes, round l for changes that random generation is unlikely to reach, round m for feature additions that break a property only where two features meet, round n for changes whose effect varies from execution to execution, round o for changes that show only on objects that have been used hundreds to tens of thousands of times, round p for results that stay well-formed and plausible but are stale, shifted or somebody else's, round q for hidden state shared between two live instances used alternately, round r for non-default but legal configuration values, round s for sizes at the implementation's internal buffer limits, round t for compensating pairs that keep the library consistent with itself, round u for variants of earlier changes at another site, constant or function, round v for classic Go language pitfalls, round w for secondary observables - the main result stays right, round x free choice of the least-covered clause, round y the change a maintainer would most likely make next). None of these patches is ever committed to /repo; `tools/seeded.py <dir> --checks <ids>` re-validates a change in a scratch clone (demo passes on the original, suite passes with the change, demo fails with the change) and runs the named checks against it from a private copy of /verif; `tools/regress_seeded.py` does that for every change and writes `regression.json`, from which the result columns below are taken. "caught (after strengthening)": the check as it stood when the change arrived missed it; DESIGN.md 9.4 says what was added.
 
 | id | property | change | needs | check | tier | result | wall s |
 |---|---|---|---|---|---|---|---|
